@@ -158,12 +158,12 @@ func ruleListRemove(c *Ctx, r *R) {
 	pf.Instr = func(f *ssa.Function, in ssa.Instruction, q int) (StateSet, bool) {
 		switch x := in.(type) {
 		case *ssa.Call:
-			if cal := staticCallee(&x.Call); cal != nil && cal.Name() == "remove" && len(x.Call.Args) == 2 && x.Call.Args[1] == ssa.Value(node) {
+			if cal := staticCallee(&x.Call); cal != nil && fname(cal) == "remove" && len(x.Call.Args) == 2 && x.Call.Args[1] == ssa.Value(node) {
 				return ss(q | 1), true
 			}
 			// a helper that clears the links of the node it is handed (node.detach()): stores of nil, in its entry block, to
 			// prev / next of the parameter bound to node
-			if cal := staticCallee(&x.Call); cal != nil && cal.Blocks != nil && cal.Name() != "remove" && rootFn(cal).Pkg == fn.Pkg && q&1 != 0 {
+			if cal := staticCallee(&x.Call); cal != nil && cal.Blocks != nil && fname(cal) != "remove" && rootFn(cal).Pkg == fn.Pkg && q&1 != 0 {
 				nq := q
 				for k, a := range x.Call.Args {
 					if a != ssa.Value(node) || k >= len(cal.Params) {
@@ -237,7 +237,7 @@ func ruleListNoop(c *Ctx, r *R) {
 				isMut = true
 			}
 			if call, ok := in.(*ssa.Call); ok {
-				if cal := staticCallee(&call.Call); cal != nil && cal.Name() == "remove" {
+				if cal := staticCallee(&call.Call); cal != nil && fname(cal) == "remove" {
 					isMut = true
 				}
 			}
@@ -265,7 +265,7 @@ func ruleListNoop(c *Ctx, r *R) {
 				isMut = true
 			}
 			if call, ok := in.(*ssa.Call); ok {
-				if cal := staticCallee(&call.Call); cal != nil && cal.Name() == "remove" {
+				if cal := staticCallee(&call.Call); cal != nil && fname(cal) == "remove" {
 					isMut = true
 				}
 			}
